@@ -133,6 +133,17 @@ def extract(facts, tname):
                 i += 1
                 continue
             raise AnchorMissing("%s: unrecognised top-level loop at line %s" % (tname, e.get("ln")))
+        if e is not None and e.get("k") == "if" and m["shift"] is None:
+            # a history shift that only happens under a condition: record it (the shift rule reports it), then execute the statement normally
+            inner = [x for x in walk(e) if x.get("k") == "for" and find_copy_within(x) is not None and self_field_root(x["iter"]) == "buffer"]
+            if inner:
+                cw = find_copy_within(inner[0])
+                rng = cw["args"][0]
+                if rng.get("k") == "range" and rng.get("lo") and rng.get("hi"):
+                    m["shift"] = {"A": sx.eval(rng["lo"], st), "A_raw": rng["lo"], "hi": sx.eval(rng["hi"], st), "hi_raw": rng["hi"],
+                                  "dest": sx.eval(cw["args"][1], st), "node": cw, "loop": inner[0], "guarded": None, "fields_at": dict(st.fields),
+                                  "conditional": show(sx.eval(e["c"], st))}
+                    m["order"].append("shift")
         if e is not None and e.get("k") == "match":
             match_node = e
             m["pre_match"] = st.clone()
